@@ -13,7 +13,8 @@ import numpy as np
 
 from core import TRUST_COMMON
 
-MODS = ["Nanite.Props.C19", "Nanite.Witness.C19", "Nanite.Audit.C19"]
+MODS = ["Nanite.Props.C19", "Nanite.Witness.C19", "Nanite.Audit.C19", "Nanite.Props.C19Legacy",
+        "Nanite.Audit.C19Legacy"]
 
 
 def to_jv(v):
@@ -28,6 +29,29 @@ def to_jv(v):
     if isinstance(v, dict):
         return {"d": [[k, to_jv(x)] for k, x in v.items()]}
     raise ValueError(v)
+
+
+_SNAP = {}
+
+
+def snapshot_defaults():
+    """the models' default parameters as plain data, taken once before any profile operation: the expectation
+    must not come from an object the library hands out during the run (it could be a shared, edited one)"""
+    from nanite import model
+    for mk, md in model.models_available.items():
+        if mk not in _SNAP:
+            d = md.module.get_parameter_defaults()
+            _SNAP[mk] = [(n_, d[n_].value, bool(d[n_].vary), float(d[n_].min), float(d[n_].max)) for n_ in d]
+
+
+def clean_defaults(mk):
+    import lmfit
+    if mk not in _SNAP:
+        snapshot_defaults()
+    p_ = lmfit.Parameters()
+    for n_, v_, vy_, lo_, hi_ in _SNAP[mk]:
+        p_.add(n_, value=v_, vary=vy_, min=lo_, max=hi_)
+    return p_
 
 
 def show(v):
@@ -106,7 +130,7 @@ def run_history(ops, path, ctx=None):
         elif op[0] == "set":
             lines.append({"op": "set", "k": op[1], "v": to_jv(op[2])})
         elif op[0] == "fitparams":
-            md = model.get_init_parms(op[1])
+            md = clean_defaults(op[1])
             lines.append({"op": "set", "k": "model_key", "v": to_jv(op[1])})
             expect.append("unit")
             lines.append({"op": "fitparams",
@@ -124,7 +148,7 @@ def run_history(ops, path, ctx=None):
                 pf["model_key"] = op[1]
                 before = json.loads(pathlib.Path(path).read_text())
                 params = pf.get_fit_params()
-                md0 = model.get_init_parms(op[1])
+                md0 = clean_defaults(op[1])
                 for p_ in md0:
                     ev = before.get(f"fit param {p_} value", md0[p_].value)
                     md0[p_].value = ev   # (through lmfit, so that bounds apply as in the code)
@@ -175,35 +199,73 @@ def fresh_read_oracle(ctx, ops, path):
                            "observed": repr(got)})
 
 
-def legacy_oracle(ctx, tdir, n):
-    """legacy key=value profiles load to the same values as their JSON form"""
+def _isfloat(t):
+    try:
+        float(t)
+        return True
+    except ValueError:
+        return False
+
+
+LEG_TEXT = {"model_key": ["hertz_para", "hertz_cone", "sneddon_spher_approx", "my=model"],
+            "range_type": ["absolute", "relative cp"],
+            "rating regressor": ["Extra Trees", "Random Forest", "none", "SVR (RBF kernel)"],
+            "rating training set": ["zef18", "/data/cantilever_k=0.05/ts_user", "C:\\ts\\a=b=c", "ts = 1", "=x"]}
+
+
+def legacy_oracle(ctx, tdir, n, driver_jobs):
+    """legacy key=value profiles load to the same values as their JSON form; every file is also parsed by the
+    Lean model of load_legacy (driver_jobs collects (line for the driver, what the real code returned))"""
     from nanite.cli import profile
     rng = ctx.rng
+    ws = ["", " ", "  ", "\t", " \t "]
     for i in range(n):
         vals = {}
         for k in rng.sample(["model_key", "preprocessing", "range_type", "range_x", "segment", "weight_cp",
                              "rating regressor", "rating training set"], rng.randint(1, 8)):
-            v = rng.choice([x for x in DOMAIN[k] if x != [] and x != ""])
+            if k in LEG_TEXT and rng.random() < 0.6:
+                v = rng.choice(LEG_TEXT[k])
+            else:
+                v = rng.choice([x for x in DOMAIN[k] if x != [] and x != ""])
             vals[k] = v
         fps = {}
-        for p in rng.sample(["E", "R", "nu", "contact_point"], rng.randint(0, 3)):
+        for p_ in rng.sample(["E", "R", "nu", "contact_point"], rng.randint(0, 3)):
             if rng.random() < 0.7:
-                fps[f"fit param {p} value"] = rng.choice([50.0, 16e-6, 0.3, 1234.5])
+                fps[f"fit param {p_} value"] = rng.choice([50.0, 16e-6, 0.3, 1234.5])
             if rng.random() < 0.6:
-                fps[f"fit param {p} vary"] = rng.choice([True, False])
-        lines = []
-        for k, v in {**vals, **fps}.items():
+                fps[f"fit param {p_} vary"] = rng.choice([True, False])
+
+        def text(k, v):
             if isinstance(v, list):
-                t = ",".join(str(x) for x in v)
-            elif k == "segment" and rng.random() < 0.5:
-                t = {0: "approach", 1: "retract"}[v]
+                return ",".join(str(x) for x in v)
+            if k == "segment" and rng.random() < 0.5:
+                return {0: "approach", 1: "retract"}[v]
+            if isinstance(v, bool) and rng.random() < 0.3:
+                return str(v).upper() if rng.random() < 0.5 else str(v).lower()
+            return str(v)
+
+        lines = []
+        items = list({**vals, **fps}.items())
+        # an overridden earlier line for some keys (the later line wins)
+        for k, v in items:
+            if rng.random() < 0.15:
+                other = rng.choice(LEG_TEXT[k]) if k in LEG_TEXT else v
+                lines.append(f"{k} = {text(k, other)}")
+        rng.shuffle(items)
+        for k, v in items:
+            t = text(k, v)
+            if rng.random() < 0.5:
+                lines.append(f"{k} = {t}")
             else:
-                t = str(v)
-            lines.append(f"{k} = {t}" if rng.random() < 0.7 else f"{k}={t}")
+                lines.append(rng.choice(ws) + k + rng.choice(ws) + "=" + rng.choice(ws) + t + rng.choice(ws))
+        malformed = rng.random() < 0.06
+        if malformed:
+            lines.insert(rng.randrange(len(lines) + 1), rng.choice(["model_key hertz_para", "# comment", "range_x"]))
         pl = tdir / f"legacy_{i}.cfg"
         pl.write_text("\n".join(lines) + "\n")
         pj = tdir / f"json_{i}.cfg"
         pj.write_text(json.dumps({**vals, **fps}))
+        da = None
         try:
             a = profile.Profile(path=pl, create=False)
             b_ = profile.Profile(path=pj, create=False)
@@ -212,13 +274,77 @@ def legacy_oracle(ctx, tdir, n):
             obs = {k: (repr(da.get(k)), repr(db.get(k))) for k in set(da) | set(db) if da.get(k) != db.get(k)}
         except BaseException as e:  # noqa
             ok, obs = False, repr(e)
+            if malformed and isinstance(e, ValueError):
+                ok = True     # a line without "=" is rejected, as the model says (compared below)
         ctx.case({"legacy": lines}, nontrivial="leg:" + "|".join(sorted(lines)),
-                 bucket=["stream=legacy", "fitparams=" + str(bool(fps))])
+                 bucket=["stream=legacy", "fitparams=" + str(bool(fps)), "malformed=" + str(malformed),
+                         "value-with-equals=" + str(any("=" in str(v) for v in vals.values()))])
         if not ok:
             ctx.violation("legacy-differs:" + ",".join(sorted(k.split()[0] for k in obs)
                                                        if isinstance(obs, dict) else ["exc"]),
                           f"legacy profile loads differently from its JSON form: {obs}",
                           {"input": lines, "observed": str(obs)})
+        toks = set()
+        for ln in lines:
+            if "=" in ln:
+                for t in ln.split("=", 1)[1].split(","):
+                    if _isfloat(t.strip()):
+                        toks.add(t.strip())
+        driver_jobs.append(({"op": "legacy", "lines": lines, "floats": sorted(toks)},
+                            da if da is not None else obs, lines))
+
+
+def parse_model_legacy(out):
+    """'{k => v; ...}' of the driver -> dict of python values (numbers as float)"""
+    def val(t):
+        if t.startswith("s:"):
+            return t[2:]
+        if t.startswith("n:"):
+            return float(t[2:])
+        if t.startswith("b:"):
+            return t[2:] == "true"
+        if t.startswith("["):
+            inner = t[1:-1]
+            return [val(x) for x in inner.split(", ")] if inner else []
+        return t
+    d = {}
+    body = out[1:-1]
+    for item in (body.split("; ") if body else []):
+        k, v = item.split(" => ", 1)
+        d[k] = val(v)
+    return d
+
+
+def legacy_correspondence(ctx, outs, driver_jobs):
+    for out, (job, real, lines) in zip(outs, driver_jobs):
+        if out.startswith("err"):
+            if not (isinstance(real, str) and "ValueError" in real):
+                ctx.disagree({"stream": "legacy", "what": "" + out, "input": lines}, repr(real), out)
+            continue
+        if "err " in out:
+            # a key the model rejects (unknown key / one-element numeric list): the real loader must raise
+            if not isinstance(real, str):
+                ctx.disagree({"stream": "legacy", "what": "model-rejects-key", "input": lines}, repr(real), out)
+            continue
+        if isinstance(real, str):
+            if "could not convert" in real or "invalid literal" in real:
+                continue            # float()/int() of a text value: conversions are outside the model
+            ctx.disagree({"stream": "legacy", "what": "implementation-raises", "input": lines}, repr(real), out)
+            continue
+        try:
+            m = parse_model_legacy(out)
+        except Exception:
+            ctx.disagree({"stream": "legacy", "what": "unparsable-model-output", "input": lines}, repr(real), out)
+            continue
+        norm = {k: ([float(x) if isinstance(x, (int, float)) and not isinstance(x, bool) else x for x in v]
+                    if isinstance(v, list) else
+                    (float(v) if isinstance(v, (int, float)) and not isinstance(v, bool) else v))
+                for k, v in real.items()}
+        # (a Profile object fills in the default of every key its file does not hold)
+        from nanite.cli import profile as _pf
+        extra_ok = all(k in _pf.DEFAULTS and real[k] == _pf.DEFAULTS[k] for k in norm if k not in m)
+        if {k: v for k, v in norm.items() if k in m} != m or not extra_ok:
+            ctx.disagree({"stream": "legacy", "what": "values-differ", "input": lines}, repr(norm), repr(m))
 
 
 class Script:
@@ -275,7 +401,7 @@ def setup_oracle(ctx, n, tdir, model_lines, model_expect):
                     ans.append("")
             else:
                 ans.append("")
-            md = model.get_init_parms(mk)
+            md = clean_defaults(mk)
             for p in md:
                 if rng.random() < 0.3:
                     # (inside the parameter bounds; lmfit clips anything else)
@@ -400,7 +526,7 @@ def setup_oracle(ctx, n, tdir, model_lines, model_expect):
                 # initial parameters (value, vary and the model's limits)
                 fpf = fitted.fit_properties
                 pin = fpf.get("params_initial")
-                ref_p = model.get_init_parms(stored.get("model_key", profile.DEFAULTS["model_key"]))
+                ref_p = clean_defaults(stored.get("model_key", profile.DEFAULTS["model_key"]))
                 wrong = []
                 if fpf.get("model_key") != stored.get("model_key", profile.DEFAULTS["model_key"]):
                     wrong.append(f"model_key {fpf.get('model_key')!r}")
@@ -482,22 +608,28 @@ def run(ctx):
         "hand-written model lean/Nanite/Model/Profile.lean of Profile.__getitem__/__setitem__/__init__/"
         "get_fit_params and of the two transformed setup answers (tied by history correspondence on real "
         "profile files)",
+        "hand-written model lean/Nanite/Model/Legacy.lean of Profile.load_legacy (line splitting at the first '=', "
+        "stripping, segment names, later-line-wins, typing by the kind of the default; float()/int() are not "
+        "modelled: numeric text stays a token and is compared as a number) - tied by parsing every generated "
+        "legacy file with both",
         "tools/py2lean dump of cli.profile.DEFAULTS",
         "JSON/float text round-trip, input(), plotting/TIFF writing and the batch fit are runtime "
         "(explored by the oracle streams, not proved)"]
     ctx.rule = ("random histories of new-object/get/set/get_fit_params on a real profile file vs the Lean "
                 "store model (values incl. falsy ones, vary-only entries, invalid fit-param keys, unknown "
-                "keys); legacy key=value files vs their JSON form; scripted setup_profile runs (every prompt "
+                "keys); legacy key=value files (values containing '=', padding, overridden lines, lines without '=') vs "
+                "their JSON form and vs the Lean model of load_legacy; scripted setup_profile runs (every prompt "
                 "answered or skipped, invalid answers to exercise re-prompts) checked against the stored "
                 "JSON and handed to the batch fit; statistics.tsv of a two-curve folder; non-trivial = "
                 "distinct history/script")
+    snapshot_defaults()
     tdir = pathlib.Path(tempfile.mkdtemp(prefix="verif_c19_"))
     os.environ["XDG_CONFIG_HOME"] = str(tdir / "xdg")
     ok_gen = ctx.gen(["profile"])
     ctx.build(MODS, clean=(ctx.tier == "thorough"))
     ctx.grep_audit()
     if ctx.tier == "thorough":
-        ctx.leanchecker(["Nanite.Props.C19", "Nanite.Witness.C19"])
+        ctx.leanchecker(["Nanite.Props.C19", "Nanite.Witness.C19", "Nanite.Props.C19Legacy"])
     try:
         from nanite.cli import profile
         assert str(profile.PROFILE_PATH).startswith(str(tdir)), "profile path not redirected"
@@ -516,7 +648,11 @@ def run(ctx):
                      nontrivial="h:" + json.dumps([list(map(str, o)) for o in ops]),
                      bucket=["stream=histories"] + [f"op={o[0]}" for o in ops])
             path.unlink()
-        legacy_oracle(ctx, tdir, 60 if ctx.tier == "quick" else 1000)
+        legacy_jobs = []
+        legacy_oracle(ctx, tdir, 80 if ctx.tier == "quick" else 1500, legacy_jobs)
+        lout = ctx.driver("C19", [j[0] for j in legacy_jobs]) if ok_gen else None
+        if lout is not None:
+            legacy_correspondence(ctx, lout, legacy_jobs)
         setup_oracle(ctx, 40 if ctx.tier == "quick" else 400, tdir, all_lines, all_expect)
         where += [("setup", None)] * (len(all_lines) - len(where))
         out = ctx.driver("C19", all_lines) if ok_gen else None
